@@ -30,7 +30,7 @@ RULE = (
     "XOr guard acted) and some parameter or input value lies outside [-1,1]; distinct = digest of the case."
 )
 ASSUMPTIONS = [
-    "operator inputs are fuzzy-valued (declared precondition); converter inputs are finite with |x| <= 1e150",
+    "operator inputs are declared fuzzy by their producer but need not lie in [-1, 1] (a reader or plug-in may hand over anything finite); converter inputs are finite with |x| <= 1e150",
     "exceptions are not range violations (only returned values are judged here)",
 ]
 
@@ -68,7 +68,7 @@ def check_unit(case, rec):
 @st.composite
 def wild_case(draw):
     cmd = draw(st.sampled_from(CMDS))
-    return draw(G.unit_case([cmd], max_rank=3, max_cells=30, wild=True, wide=cmd not in R.FUZZY_INPUT,
+    return draw(G.unit_case([cmd], max_rank=3, max_cells=30, wild=True, wide=cmd not in R.FUZZY_INPUT, fuzzy_wild=True,
                             dtypes=("float64", "int64", "float64", "float32", "int32")))
 
 
